@@ -13,6 +13,7 @@ subscribers (validator, pool) are told about a saved block asynchronously.
        every REAL replacement (gas price not higher).  Any other difference from the model is MODEL-DRIFT (exit 2).
 """
 import _txpool as tp
+from _bp2p_cover import fast_cover
 
 ACTIONS = ["Submit", "RemoveBelowGas", "LedgerCommit", "ValAddBlock", "PoolClean", "ValReset", "Propose"]
 
@@ -23,32 +24,41 @@ def run(ctx):
     runs = []
     if ctx.thorough:
         runs.append(("exh5", dict(evm="EvmS", ont="OntQ", max_ops=5), None))
-        runs.append(("simT", dict(evm="EvmT", ont="OntT", max_ops=16, max_height=4), ("num=150", 16)))
-        runs.append(("simQ", dict(evm="EvmQ", ont="OntQ", max_ops=14, max_height=4, max_blocks=1, max_tx=2), ("num=100", 14)))
+        runs.append(("simT", dict(evm="EvmT", ont="OntT", max_ops=16, max_height=4), ("num=1500", 16)))
+        runs.append(("simQ", dict(evm="EvmQ", ont="OntQ", max_ops=14, max_height=4, max_blocks=1, max_tx=2), ("num=1000", 14)))
     else:
-        runs.append(("exh4", dict(evm="EvmS", ont="OntQ", max_ops=4), None))
-        runs.append(("simQ", dict(evm="EvmQ", ont="OntQ", max_ops=12), ("num=25", 12)))
+        runs.append(("exh4", dict(evm="EvmS", ont="OntQ", max_ops=4, max_block_txs=1), None))
+        runs.append(("simQ", dict(evm="EvmQ", ont="OntQ", max_ops=14, max_height=4), ("num=300", 14)))
     npaths = nedges = 0
     names, results = set(), set()
+    vh_cases, vh_maxblocks = {}, {}
     for tag, kw, sim in runs:
         cfg = "TxPool_gen_%s.cfg" % tag
         r = ctx.tlc("TxPool_MC", cfg=cfg, workers=1, files={cfg: tp.cfg_text(export=True, **kw)}, timeout=2400,
                     simulate=sim[0] if sim else None, depth=sim[1] if sim else None)
         ctx.log("TLC %s %s: %s, %d generated, %d distinct, depth %d, %.1fs" % (tag, kw, r.status if not r.violated else "violated " + r.violated,
                                                                              r.generated, r.distinct, r.depth, r.wall))
-        if r.status != "ok" and not (sim and r.status == "error" and not r.errors):
+        if sim:
+            m = tp.re.search(r"The number of states generated: (\d+)", open(r.out_path, errors="replace").read())
+            if m:
+                ctx.stats["transitions"] += int(m.group(1))
+        if r.status != "ok":
             # a counterexample in the specification alone is a modelling problem, never a verdict on the code
             ctx.infra("TLC did not verify %s: status=%s violated=%s %s" % (tag, r.status, r.violated, r.errors[:2]))
             continue
         edges, inits = tp.collect(r)
+        vh_maxblocks[tag] = kw.get("max_blocks", 2)
+        for e in edges:
+            if e["act"]["name"] == "Propose":
+                f, t = e["from"], e["to"]
+                vh_cases[(f["vbase"], f["vlen"], 1 + len(f["blocks"]), tag)] = (e["act"]["valid"], t["vbase"], t["vlen"])
         names |= {e["act"]["name"] for e in edges}
         results |= {e["act"].get("res") for e in edges if e["act"]["name"] == "Submit"}
         if not binary or not edges:
             if not edges:
                 ctx.infra("no edges exported by %s" % tag)
             continue
-        paths, ncov = ctx.cover(edges, inits, max_len=max(kw["max_ops"], 24))
-        nuniq = len({(tp.vf.canon(e["from"]), tp.vf.canon(e["act"]), tp.vf.canon(e["to"])) for e in edges})
+        paths, ncov, nuniq = fast_cover(edges, inits, max_len=max(kw["max_ops"], 24))
         if ncov != nuniq:
             ctx.infra("cover incomplete (%s): %d of %d edges" % (tag, ncov, nuniq))
         ctx.log("%s: %d edges, %d paths, %d steps" % (tag, nuniq, len(paths), sum(len(p["steps"]) for p in paths)))
@@ -61,6 +71,8 @@ def run(ctx):
         if len(ctx.samples) < 4 and paths:
             longest = max(paths, key=lambda p: len(p["steps"]))
             ctx.samples.append({"run": tag, "replayed_path": tp.path_text(longest, 14)})
+    nvh = tp.check_valid_height(ctx, vh_cases, vh_maxblocks) if vh_cases else 0
+    ctx.log("vbft Server.validHeight agrees with the model on %d (window, height) cases" % nvh)
     if ctx.thorough:
         # pure model checking of a larger universe (no export), all workers; nops is part of the view so that the
         # depth bound is exact with several workers
@@ -80,6 +92,7 @@ def run(ctx):
         "states": ctx.stats["states"], "transitions": ctx.stats["transitions"],
         "traces_validated_against_impl": npaths,
         "replayed_steps": stats["steps"], "replay_edges": nedges,
+        "validHeight_cases_checked_on_vbft": nvh,
         "real_proposals": stats["proposals"], "real_proposed_txs": stats["proposed_txs"], "real_AddTxList_results": stats["submits"],
         "runs": [{"tag": t, "constants": k, "simulate": s} for t, k, s in runs],
         "exhaustive": True,
@@ -87,6 +100,7 @@ def run(ctx):
         "valid (no transaction twice on chain, per sender consecutive nonces)",
         "a VerifiedTx reaches the pool with the height and account nonce at which the stateful validator admitted it, at most "
         "MaxStale blocks late; the validator and the pool learn of a saved block at most MaxLag blocks late",
-        "the proposer is consensus/solo makeBlock = vbft validHeight+makeProposal for blkNum = ledger height + 1 (replicated in the "
-        "harness: BlockRange/Clean/GetTxPool/Verify are the real calls)",
+        "the proposer loop is consensus/solo makeBlock = vbft makeProposal for blkNum = ledger height + 1, replicated in the harness "
+        "around the real BlockRange/Clean/GetTxPool/Verify calls; its validHeight part is cross-checked against the real vbft "
+        "Server.validHeight on every (window, height) of the model",
         "EIPTX_NONCE_MAX_GAP (1000) and CleanStaledEIPTx (pool > 10000 entries) are outside the bounded universe"])
